@@ -33,6 +33,7 @@ func checkC02(c *Ctx) {
 	c.Run.Assume = []string{"the reflective reference mon.RefEqual is the specification of structural equality", "values are acyclic and NaN-free by construction", "go build -race (checkptr) instruments the emitted unsafe field access"}
 	c.Run.Floor = 50
 	sel := shapeSel{
+		ExtraTypes: commonExtras,
 		Forms: []string{"top", "field"}, QuickDeep: 70, QuickRand: 24, ThorRand: 400, BatchSize: 44,
 		KeepShape: behaviouralShape,
 		Ops: func(t *pgen.Type, form string) []string {
@@ -54,6 +55,7 @@ func checkC03(c *Ctx) {
 	c.Run.Assume = []string{"the link to Equal is evaluated against the derived Equal of the same package (C02 decides whether that one is right)", "direction is asserted only where the property defines it"}
 	c.Run.Floor = 50
 	sel := shapeSel{
+		ExtraTypes: commonExtras,
 		Forms: []string{"top", "field"}, QuickDeep: 70, QuickRand: 24, ThorRand: 400, BatchSize: 36,
 		KeepShape: behaviouralShape,
 		Ops: func(t *pgen.Type, form string) []string {
@@ -79,6 +81,7 @@ func checkC04(c *Ctx) {
 	c.Run.Assume = []string{"'equal' is the derived Equal of the same package (relative property)", "two executions of the same binary stand for 'across processes'"}
 	c.Run.Floor = 50
 	sel := shapeSel{
+		ExtraTypes: commonExtras,
 		Forms: []string{"top", "field"}, QuickDeep: 70, QuickRand: 24, ThorRand: 400, BatchSize: 44,
 		KeepShape: func(t *pgen.Type) bool { return behaviouralShape(t) && noCustom(t) },
 		Ops:       func(t *pgen.Type, form string) []string { return []string{"hash", "equal"} },
@@ -114,6 +117,7 @@ func checkC05(c *Ctx) {
 	c.Run.Assume = []string{"string data is immutable and may be shared", "zero-size allocations are not memory"}
 	c.Run.Floor = 50
 	sel := shapeSel{
+		ExtraTypes: commonExtras,
 		Forms: []string{"top", "field"}, QuickDeep: 70, QuickRand: 24, ThorRand: 400, BatchSize: 44,
 		KeepShape: behaviouralShape,
 		Ops: func(t *pgen.Type, form string) []string {
